@@ -272,7 +272,7 @@ fn build_partial_eq_expr(
     if let Some(by) = &cmp.partial_ord.by {
         return Ok(quote! {
             {
-                fn #fn_ident<__T: ?::core::marker::Sized>(this: &__T, other: &__T, partial_cmp: impl Fn(&__T, &__T) -> ::core::option::Option<::core::cmp::Ordering>) -> bool {
+                fn #fn_ident<__T: ?::core::marker::Sized>(this: &__T, other: &__T, partial_cmp: impl ::core::ops::Fn(&__T, &__T) -> ::core::option::Option<::core::cmp::Ordering>) -> bool {
                     partial_cmp(this, other) == ::core::option::Option::Some(::core::cmp::Ordering::Equal)
                 }
                 #fn_ident(&#this, &#other, #by)
@@ -512,7 +512,7 @@ fn build_partial_ord_expr(
                 fn #fn_ident<__T: ?::core::marker::Sized>(
                     this: &__T,
                     other: &__T,
-                    partial_cmp: impl Fn(&__T, &__T) -> ::core::option::Option<::core::cmp::Ordering>)
+                    partial_cmp: impl ::core::ops::Fn(&__T, &__T) -> ::core::option::Option<::core::cmp::Ordering>)
                  -> ::core::option::Option<::core::cmp::Ordering> {
                     partial_cmp(this, other)
                 }
@@ -531,7 +531,7 @@ fn build_partial_ord_expr(
                 fn #fn_ident<__T: ?::core::marker::Sized>(
                     this: &__T,
                     other: &__T,
-                    cmp: impl Fn(&__T, &__T) -> ::core::cmp::Ordering)
+                    cmp: impl ::core::ops::Fn(&__T, &__T) -> ::core::cmp::Ordering)
                  -> ::core::option::Option<::core::cmp::Ordering> {
                     ::core::option::Option::Some(cmp(this, other))
                 }
@@ -651,7 +651,7 @@ fn build_ord_expr(
                 fn #fn_ident<__T: ?::core::marker::Sized>(
                     this: &__T,
                     other: &__T,
-                    cmp: impl Fn(&__T, &__T) -> ::core::cmp::Ordering)
+                    cmp: impl ::core::ops::Fn(&__T, &__T) -> ::core::cmp::Ordering)
                  -> ::core::cmp::Ordering {
                     cmp(this, other)
                 }
@@ -749,7 +749,7 @@ fn build_hash_expr(
                 fn #fn_ident<__T: ?::core::marker::Sized, H: ::core::hash::Hasher>(
                     this: &__T,
                     state: &mut H,
-                    hash: impl Fn(&__T, &mut H)) {
+                    hash: impl ::core::ops::Fn(&__T, &mut H)) {
                     hash(this, state)
                 }
                 #fn_ident(&#this, state, #by)
